@@ -1780,13 +1780,13 @@ package gomatrixserverlib
 //@   requires len(input) >= 4
 //@   ensures range: 0 <= result && result <= 65535
 
-// The escape decoder reads up to two bytes past the four hex digits of a high surrogate; inside a JSON string
-// (which is always closed by a quote) those bytes exist. That is the stated precondition; CompactJSON, which would
-// have to establish it from "the input is valid JSON", is not under contract.
+// The escape decoder is entered right after backslash-u inside a string of a lexically well-formed text: the four hex
+// digits exist, the string continues after them, and a following backslash is itself followed by a byte.
 //@ func compactUnicodeEscape
-//@   property C18:safety
-//@   requires 0 <= index && index <= len(input)
-//@   requires (len(input) - index >= 4) ==> (index + 4 < len(input) && (input[index+4] == 92 ==> index + 5 < len(input)))
+//@   property C01, C18:safety
+//@   requires lexOK(str(input)) && 2 <= index && index <= len(input) && lxEsc(str(input), index - 1) && input[index - 1] == 117 && ref(input) != ref(output)
+//@   ensures resumes-inside-the-string: index < result[1] && result[1] <= len(input) && lxStr(str(input), result[1]) && !lxEsc(str(input), result[1])
+//@   ensures input-untouched: str(input) == old(str(input)) && ref(result[0]) != ref(input)
 
 // ---------------------------------------------------------------- C14: federation verification
 
@@ -2100,3 +2100,12 @@ package gomatrixserverlib
 //@   purecallbacks
 //@   calls AddEvent@root adds-the-auth-event-not-the-event: exists i int :: 0 <= i && i < len(root_event.AuthEventIDs()) && root_event.AuthEventIDs()[i] in r.authEventMap && event == r.authEventMap[root_event.AuthEventIDs()[i]] && event.Type() == root_eventType && event.StateKeyEquals(root_stateKey)
 //@   loop 1: invariant 0 <= idx(1) && idx(1) <= len(event.AuthEventIDs())
+
+
+// CompactJSON never indexes out of range on a lexically well-formed JSON text (what json.Valid / gjson.Valid accept);
+// its output slice must not be the input's backing array
+//@ func CompactJSON
+//@   property C01, C18:safety
+//@   requires lexOK(str(input)) && ref(input) != ref(output)
+//@   loop 1: invariant 0 <= i && i <= len(input) && !lxStr(old(str(input)), i) && !lxEsc(old(str(input)), i) && str(input) == old(str(input)) && ref(output) != ref(input)
+//@   loop 2: invariant 0 <= i && i <= len(input) && lxStr(old(str(input)), i) && !lxEsc(old(str(input)), i) && str(input) == old(str(input)) && ref(output) != ref(input)
